@@ -62,7 +62,7 @@ def parseBlk (kind flags mf idur ito cdur sdur sto ons : String) : Option Blk :=
 
 def Res.render : Res → String
   -- the task sees a CancelledError in both cases
-  | .ok => "ok" | .err => "err" | .timeout => "cancelled" | .cancelled => "cancelled"
+  | .ok => "ok" | .err => "err" | .timeout => "cancelled" | .cancelled => "cancelled" | .pending => "pending"
 
 def Ev.render : Ev → String
   | .start k => s!"start:{k}" | .started k => s!"started:{k}" | .stop k => s!"stop:{k}"
